@@ -331,6 +331,10 @@ class ExprMixin:
             self.unsupported(node, 'spec keyword %s used as value' % name)
         if info is not None:
             mi = info.module
+            ov = getattr(self.reg, 'global_values', {}).get('%s:%s' % (mi.name, name))
+            if ov is not None:
+                # a module-level object the contracts give an abstract value (e.g. a sentinel)
+                return ov(self, st) if callable(ov) else ov
             if name in mi.funcs and '.' not in name:
                 return VFunc('repo', info=mi.funcs[name], bound=None)
             pm = mi.pymod()
@@ -353,6 +357,16 @@ class ExprMixin:
                             return self.lift(st, ast.literal_eval(m2.assigns[imp[2]]), node)
                         except Exception:
                             pass
+                if imp[0] != 'module' and self.prog.is_repo_module(imp[1]):
+                    # the importing module cannot be imported here (absent third-party dependency) but the module the name
+                    # comes from can: constants such as aiocoap.numbers.POST are read from the live module
+                    try:
+                        import importlib
+                        obj = getattr(importlib.import_module(imp[1]), imp[2])
+                        if isinstance(obj, (int, bytes, str, bool, float)) or type(obj).__module__.startswith('aiocoap.numbers'):
+                            return self.lift(st, obj, node)
+                    except Exception:
+                        pass
                 return VFunc('ext', name='%s.%s' % (imp[1], imp[2]), bound=None)
             if name in mi.assigns:
                 try:
@@ -655,6 +669,15 @@ class ExprMixin:
                 return [(st, VStr(z3.Function('str_concat', StrS, StrS, StrS)(a.t, b.t)))]
         if isinstance(op, ast.Mod) and isinstance(a, VStr):
             return [(st, VStr(fresh(STR, 'fmt')))]
+        if isinstance(op, ast.Mult) and ((isinstance(a, VBytes) and self.is_numeric(b)) or (isinstance(b, VBytes) and self.is_numeric(a))):
+            # repetition of a one-byte string: max(n, 0) copies of that byte (longer patterns are not modelled)
+            pat, cnt = (a, b) if isinstance(a, VBytes) else (b, a)
+            ln = z3.simplify(pat.len)
+            if not (is_const_int(ln) and ln.as_long() == 1):
+                self.unsupported(node, 'repetition of a byte string that is not one byte long')
+            n = self.as_int(cnt, node)
+            byte = z3.simplify(pat.at(z3.IntVal(0)))
+            return [(st, VBytes(z3.simplify(z3.If(n > 0, n, 0)), lambda i, byte=byte: byte))]
         if isinstance(op, ast.Div) and isinstance(a, (VRef, VAny)) and a.ty[0] in ('ref', 'any'):
             # pathlib-style division: handled by an external contract
             return self.call_external(st, 'operator.truediv', [a, b], {}, node)
